@@ -3,7 +3,7 @@ CONSTANTS
   EchoBuf = 1
   NIns = {0, 1, 2, 3, 4, 6, 8}
   NOuts = {0, 1, 2, 3, 4}
-  NErrs = {0, 1, 2, 3, 4}
+  NErrs = {0, 1, 3, 4}
   WChunks = {0, 1, 2, 3}
   RChunks = {0, 1, 2}
   IoStatuses = {"c0"}
